@@ -113,7 +113,7 @@ PROPS.update({
                        ["the MAC of the nonce managers is a parameter of the nonce theorems; harness H3 supplies the real HMAC of the decoded timestamp as an oracle entry per operation",
                         "MESSAGE-INTEGRITY verification itself is pion/stun's (exercised for real, modelled as the fact macOK)"]),
                 harnesses=["H2", "H3"]),
-    "C04": h2prop(["TurnModel.Props.C04"], ["m:*", "pdata", "pconn", "cclose", "state"], None, ["response-wrong-source"]),
+    "C04": h2prop(["TurnModel.Props.C04", "TurnModel.Props.C04NI"], ["m:*", "pdata", "pconn", "cclose", "state"], None, ["response-wrong-source"]),
     "C05": h2prop(["TurnModel.Props.C05"], ["m:send", "m:cdata", "pdata"], ["topeer", "dind", "cdat"], ["chandata-padding"]),
     "C06": h2prop(["TurnModel.Props.C06"], ["m:alloc", "m:refresh", "adv", "state", "m:send", "pdata"], ["resp", "topeer", "dind", "cdat"], []),
     "C07": h2prop(["TurnModel.Props.C07"], ["m:perm", "m:bind", "adv", "m:send", "m:cdata", "pdata", "state"],
@@ -275,8 +275,10 @@ MANIFEST_TEXT.update({
                "DESIGN.md §6 C03", "Lean 4 decision table + frame theorems + differential correspondence",
                "Cryptography is a parameter: the abstract credential facts are what authenticateRequest establishes."),
     "C04": _mt("unique_key / unique_relay (Nodup invariants over all reachable states), frame and others_cannot_touch (any history of other 5-tuples leaves an allocation identical), "
-               "replies_to_sender, connbind_frame, control_close_local.",
-               "DESIGN.md §6 C04", "Lean 4 list-level invariants + frame lemma by induction + differential correspondence"),
+               "replies_to_sender, connbind_frame, control_close_local; noninterference / noninterference_two_runs (Goguen-Meseguer purge form, any history length): deleting every request "
+               "of every other 5-tuple from a history changes neither the trace client k observes (responses, relayed data out, data indications / ChannelData in) nor k's allocation, from any "
+               "two states that agree on k's view; k's own Allocate/Connect (shared ports, tokens, connection ids) are outside that theorem.",
+               "DESIGN.md §6 C04", "Lean 4 list-level invariants + frame lemma + purge-form non-interference by induction + differential correspondence"),
     "C05": _mt("payload identity both ways for all lengths (composition of M4 gating with the ChannelData/XOR codecs of M1 and the framer of M2), oversize dropped, "
                "inbound MTU rule, at-most-once, truthful attribution, padding shape.",
                "DESIGN.md §6 C05", "Lean 4 composition of codec round-trip and relay theorems + differential correspondence with boundary payload sizes"),
